@@ -393,6 +393,7 @@ def c14_rust(ctx):
     c14_lex_minimize(ctx, F)
     c14_implicit_precedence(ctx, F)
     c14_advance_map_prefix(ctx, F)
+    c14_any_separator(ctx, F)
     c14_prefer(ctx, F)
     c14_group_transitions(ctx, F)
     fn = find_fn(ctx, F, "build_tables::identify_keywords", "G3")
@@ -579,6 +580,33 @@ def c14_advance_map_prefix(ctx, F):
         ctx.ok("R1", key, "after the first transition that is not simple no further transition is counted (%d states)" % sr.states)
     else:
         ctx.bad("R1", key, "add_lex_state %s (%s)" % (v.msg, fn.loc(v.pt)), {"path": sr.render_path(v.path)[-6:]})
+
+
+def c14_any_separator(ctx, F):
+    """C14.S3: "this lex state is reached over a separator" is a fact about the raw NFA transitions.  Grouping merges
+    transitions on the same characters and calls the merged one a separator only if *every* contributor is one, so a
+    flag read off the grouped transitions is false whenever each extras character is also consumed by some token body —
+    and prefer_transition then stops ending a token at the extras: the next token swallows them."""
+    fn = find_fn(ctx, F, "NfaCursor::transitions_and_any_sep", "S3")
+    if not fn:
+        return
+    key = "transitions_and_any_sep:flag-from-raw-transitions"
+    calls = [c.get("fn") or "" for pt, c in fn.calls()]
+    rets = [deep_text(fn, x["r"], user=True) for pt, e in fn.points() for x in own_walk(e) if x.get("k") == "assign" and show(x["l"]) == "_0"]
+    flag = ""
+    for t in rets:
+        if "1: " in t:
+            flag = t.split("1: ", 1)[1]
+    cl = [f for f in F.fn_list if f.name.startswith(fn.name + "::{closure")]
+    cl_sets = any("is_sep" in show(e) or ".1" in show(e) for f in cl for pt, e in f.points() for x in own_walk(e) if x.get("k") == "assign" and "BitOr" in show(x) or "|" in show(x)) if cl else False
+    from_grouped = ("group_transitions" in flag) or ("::transitions(" in flag) or ("is_separator" in flag and "raw_transitions" not in flag)
+    uses_raw = any("raw_transitions" in c for c in calls)
+    captures = any("closure{0: &any_sep" in t or "closure{0: &" in t for t in rets)
+    if uses_raw and captures and not from_grouped:
+        ctx.ok("S3", key, "the flag is accumulated by the closure that walks raw_transitions() (it is handed the flag by reference)")
+    else:
+        ctx.bad("S3", key, "transitions_and_any_sep computes its separator flag from `%s` — the grouped transitions — instead of accumulating it over raw_transitions(): a lex state whose extras characters "
+                "are all also token characters no longer prefers the token that just ended, and the following token swallows the extras" % (flag[:80] or "?"))
 
 
 def c14_lex_minimize(ctx, F):
